@@ -2,12 +2,18 @@
   C05 — Decimal amount arithmetic is exact with round-half-away-from-zero.
 
   Only property theorems live here (helper lemmas: Proofs/Float53.lean,
-  Proofs/Num.lean).  Every theorem is about the *faithful* model of
+  Proofs/Num.lean, Proofs/GoSem.lean).  Every theorem is about the *faithful* model of
   /repo/num (float64 detour included) and relates it to rational
   arithmetic rounded half away from zero (Spec/C05.lean).
+
+  `namespace Src` (at the end) ties that faithful model to the source: each of
+  its functions is proved equal to the definition that the go2lean translator
+  regenerates from /repo/num on every run (Generated/NumSrc.lean).
 -/
 import GoblVerif.Spec.C05
 import GoblVerif.Generated.NumFacts
+import GoblVerif.Generated.NumSrc
+import GoblVerif.Proofs.GoSem
 import GoblVerif.Proofs.Num
 import Mathlib.Tactic.Linarith
 import Mathlib.Tactic.FieldSimp
@@ -394,5 +400,352 @@ theorem percentage_conversions_shift_the_point :
     calls_PercentageFromAmount = [] ∧ calls_Percentage_Amount = ["RescaleUp"] := by decide
 
 end Expect
+
+/-! ## Src — the code as it stands now, translated on this run
+
+`Generated/NumSrc.lean` is written by the go2lean translator
+(harness/cmd/extract/go2lean*.go, configuration numsrc.go) from
+/repo/num/amount.go, percentage.go and validation.go on EVERY run of the check.
+The theorems below prove each regenerated definition equal, for ALL arguments,
+to the hand-written faithful-layer function of Model/Num.lean.  With them every
+theorem of this file about the faithful layer (and, through Proofs/Num.lean,
+about the exact layer, hence the calculation family C01–C04, C17, C20 that is
+stated over the exact layer) is a theorem about code regenerated from the
+source on this run; `spec_of_the_source_*` spell that out for the main
+operations.  An edit of one of these Go functions changes the regenerated
+definition and the corresponding `src_*` proof no longer closes.
+
+Trusted: the translator's reading of Go (header of Generated/NumSrc.lean:
+int64 → unbounded Int, uint32 → Nat with truncated subtraction — every site is
+pinned in `nat_subtractions_as_reviewed` —, float64 through Model/Float53) and
+the Float53 model of IEEE-754 binary64 itself (sampled by the differential run). -/
+namespace Src
+open GoblVerif.Generated GoblVerif.GoSem
+
+/-! ### the translation is complete, and the struct mapping is what the Go declarations say -/
+
+theorem all_translated : NumSrc.untranslated = [] := by decide
+
+theorem struct_Amount_as_mapped :
+    NumSrc.struct_Amount = [("value", "int64"), ("exp", "uint32")] ∧
+    NumSrc.structLean_Amount = ("GoblVerif.Amount", ["value", "exp"]) ∧
+    NumSrc.structOmitted_Amount = [] := by decide
+
+theorem struct_Percentage_as_mapped :
+    NumSrc.struct_Percentage = [("amount", "Amount")] ∧
+    NumSrc.structLean_Percentage = ("GoblVerif.Pct", ["amount"]) ∧
+    NumSrc.structOmitted_Percentage = [] := by decide
+
+/-- `ThresholdRule.err` (a `validation.Error`) is not represented; `compare` does not read it
+    (a use would have made the function untranslated) -/
+theorem struct_ThresholdRule_as_mapped :
+    NumSrc.struct_ThresholdRule = [("threshold", "Amount"), ("operator", "int"), ("err", "validation.Error")] ∧
+    NumSrc.structLean_ThresholdRule = ("ThresholdRule", ["threshold", "operator"]) ∧
+    NumSrc.structOmitted_ThresholdRule = ["err"] := by decide
+
+/-- every subtraction on `uint32` (truncated in the translation, wrapping in Go),
+    with the branch conditions around it: four are guarded syntactically, the
+    fifth by `pct_amount_subtraction_guarded` -/
+theorem nat_subtractions_as_reviewed :
+    NumSrc.natSubs = [
+      ("intPow", "exp--", ["exp != 0"]),
+      ("Amount.Rescale", "a.exp - exp", ["a.exp > exp"]),
+      ("Amount.Rescale", "exp - a.exp", ["a.exp < exp"]),
+      ("Amount.Downscale", "a.Exp() - decrease", ["!(decrease > a.Exp())"]),
+      ("Percentage.Amount", "a.exp - 2", [])] := by decide
+
+/-- the one loop (in `intPow`) has the fuel `exp`; it never runs out -/
+theorem fuel_checks_listed : NumSrc.fuelChecks = ["intPow_fuelOK"] := by decide
+
+theorem src_intPow (base : Int) (e : Nat) : NumSrc.intPow base e = base ^ e := by
+  unfold NumSrc.intPow
+  simp only [Id.run]
+  rw [forIn_range_fuel _ (fun _ _ => rfl)]
+  simp only [bind, pure]
+  rw [forFuel_countdown _ (fun o => o * base) (by intro s; simp [Id.run]) (by intro k s; simp [Id.run])]
+  simp [iter_mul_int]
+
+theorem intPow_fuel_suffices (base : Int) (e : Nat) : NumSrc.intPow_fuelOK base e = true := by
+  unfold NumSrc.intPow_fuelOK
+  simp only [Id.run]
+  rw [forIn_range_fuel _ (fun _ _ => rfl)]
+  simp only [bind, pure]
+  rw [forFuel_countdown _ (fun o => o * base) (by intro s; simp [Id.run]) (by intro k s; simp [Id.run])]
+  simp
+
+theorem src_pow10 (e : Nat) : NumSrc.intPow 10 e = pow10 e := src_intPow 10 e
+
+theorem src_MakeAmount (v : Int) (e : Nat) : NumSrc.MakeAmount v e = ⟨v, e⟩ := rfl
+
+theorem src_Rescale (a : Amount) (e : Nat) : NumSrc.Amount_Rescale a e = a.rescale e := by
+  unfold NumSrc.Amount_Rescale Amount.rescale
+  simp only [src_pow10]
+  rfl
+
+theorem src_Add (a b : Amount) : NumSrc.Amount_Add a b = a.add b := by
+  unfold NumSrc.Amount_Add Amount.add
+  simp only [src_Rescale]
+  rfl
+
+theorem src_Subtract (a b : Amount) : NumSrc.Amount_Subtract a b = a.sub b := by
+  unfold NumSrc.Amount_Subtract Amount.sub
+  simp only [src_Rescale]
+  rfl
+
+theorem src_Multiply (a b : Amount) : NumSrc.Amount_Multiply a b = a.multiply b := by
+  unfold NumSrc.Amount_Multiply Amount.multiply
+  simp only [src_pow10]
+  rfl
+
+theorem src_Divide (a b : Amount) : NumSrc.Amount_Divide a b = a.divide b := by
+  unfold NumSrc.Amount_Divide Amount.divide
+  simp only [src_pow10]
+  rfl
+
+theorem src_Split (a : Amount) (x : Int) : NumSrc.Amount_Split a x = a.split x := by
+  unfold NumSrc.Amount_Split Amount.split
+  simp only [src_Divide, src_Multiply, src_Subtract, src_MakeAmount]
+  rfl
+
+theorem src_rescaleAmountPair (a b : Amount) :
+    NumSrc.rescaleAmountPair a b =
+      (a.rescale (if b.exp > a.exp then b.exp else a.exp), b.rescale (if b.exp > a.exp then b.exp else a.exp)) := by
+  unfold NumSrc.rescaleAmountPair
+  simp only [src_Rescale]
+  by_cases h : b.exp > a.exp <;> simp [h, Id.run, id_pure]
+
+theorem src_Compare (a b : Amount) : NumSrc.Amount_Compare a b = a.compare b := by
+  unfold NumSrc.Amount_Compare Amount.compare
+  simp only [src_rescaleAmountPair]
+  rfl
+
+theorem src_Equals (a b : Amount) : NumSrc.Amount_Equals a b = a.equals b := by
+  unfold NumSrc.Amount_Equals Amount.equals
+  rw [src_Compare]
+  by_cases h : a.compare b = 0 <;> simp [h]
+
+theorem src_RescaleUp (a : Amount) (e : Nat) : NumSrc.Amount_RescaleUp a e = a.rescaleUp e := by
+  unfold NumSrc.Amount_RescaleUp Amount.rescaleUp
+  simp only [src_Rescale]
+  rfl
+
+theorem src_RescaleDown (a : Amount) (e : Nat) : NumSrc.Amount_RescaleDown a e = a.rescaleDown e := by
+  unfold NumSrc.Amount_RescaleDown Amount.rescaleDown
+  simp only [src_Rescale]
+  rfl
+
+theorem src_RescaleRange (a : Amount) (mn mx : Nat) : NumSrc.Amount_RescaleRange a mn mx = a.rescaleRange mn mx := by
+  unfold NumSrc.Amount_RescaleRange Amount.rescaleRange
+  rw [src_RescaleUp, src_RescaleDown]
+
+theorem src_MatchPrecision (a b : Amount) : NumSrc.Amount_MatchPrecision a b = a.matchPrecision b := by
+  unfold NumSrc.Amount_MatchPrecision Amount.matchPrecision
+  rw [src_RescaleUp]
+
+theorem src_Exp (a : Amount) : NumSrc.Amount_Exp a = a.exp := rfl
+theorem src_Value (a : Amount) : NumSrc.Amount_Value a = a.value := rfl
+
+theorem src_Upscale (a : Amount) (n : Nat) : NumSrc.Amount_Upscale a n = a.upscale n := by
+  unfold NumSrc.Amount_Upscale Amount.upscale
+  rw [src_Rescale, src_Exp]
+
+theorem src_Downscale (a : Amount) (n : Nat) : NumSrc.Amount_Downscale a n = a.downscale n := by
+  unfold NumSrc.Amount_Downscale Amount.downscale
+  simp only [src_Rescale, src_Exp]
+  by_cases h : n > a.exp <;> simp [h, Id.run, id_pure]
+
+theorem src_factor1 : NumSrc.factor1 = GoblVerif.factor1 := rfl
+
+theorem src_Factor (p : Pct) : NumSrc.Percentage_Factor p = p.factor := by
+  unfold NumSrc.Percentage_Factor Pct.factor
+  rw [src_Add, src_factor1]
+
+theorem src_Remove (a : Amount) (p : Pct) : NumSrc.Amount_Remove a p = a.remove p := by
+  unfold NumSrc.Amount_Remove Amount.remove
+  rw [src_Divide, src_Factor]
+
+theorem src_Negate (a : Amount) : NumSrc.Amount_Negate a = a.negate := rfl
+theorem src_Invert (a : Amount) : NumSrc.Amount_Invert a = a.negate := rfl
+
+theorem src_Abs (a : Amount) : NumSrc.Amount_Abs a = a.abs := by
+  unfold NumSrc.Amount_Abs Amount.abs
+  simp only [src_Invert]
+  rfl
+
+theorem src_IsZero (a : Amount) : NumSrc.Amount_IsZero a = decide (a.value = 0) := rfl
+theorem src_IsNegative (a : Amount) : NumSrc.Amount_IsNegative a = decide (a.value < 0) := rfl
+theorem src_IsPositive (a : Amount) : NumSrc.Amount_IsPositive a = decide (0 < a.value) := rfl
+
+theorem src_Float64 (a : Amount) : NumSrc.Amount_Float64 a = fdiv (ofInt64 a.value) (ofInt64 (pow10 a.exp)) := by
+  unfold NumSrc.Amount_Float64; rw [src_pow10]
+
+theorem src_AmountFromFloat64 (v : Rat) (e : Nat) :
+    NumSrc.AmountFromFloat64 v e = ⟨goRound (fmul v (ofInt64 (pow10 e))), e⟩ := by
+  unfold NumSrc.AmountFromFloat64
+  simp only [src_pow10]
+  rfl
+
+theorem src_MakePercentage (v : Int) (e : Nat) : NumSrc.MakePercentage v e = ⟨⟨v, e⟩⟩ := rfl
+theorem src_PercentageFromAmount (a : Amount) : NumSrc.PercentageFromAmount a = Pct.ofAmount a := rfl
+theorem src_Percentage_Value (p : Pct) : NumSrc.Percentage_Value p = p.amount.value := rfl
+theorem src_Percentage_Exp (p : Pct) : NumSrc.Percentage_Exp p = p.amount.exp := rfl
+theorem src_Percentage_Base (p : Pct) : NumSrc.Percentage_Base p = p.amount := rfl
+
+theorem src_Percentage_Amount (p : Pct) : NumSrc.Percentage_Amount p = p.toAmount := by
+  unfold NumSrc.Percentage_Amount Pct.toAmount
+  simp only [src_RescaleUp]
+  rfl
+
+theorem src_Percentage_Rescale (p : Pct) (e : Nat) : NumSrc.Percentage_Rescale p e = p.rescale e := by
+  unfold NumSrc.Percentage_Rescale Pct.rescale
+  rw [src_Rescale]
+
+theorem src_Of (p : Pct) (a : Amount) : NumSrc.Percentage_Of p a = p.of a := by
+  unfold NumSrc.Percentage_Of Pct.of
+  rw [src_Multiply]
+
+theorem src_From (p : Pct) (a : Amount) : NumSrc.Percentage_From p a = p.from a := by
+  unfold NumSrc.Percentage_From Pct.from
+  simp only [src_Divide, src_Factor, src_Subtract]
+  rfl
+
+theorem src_Percentage_Equals (p q : Pct) : NumSrc.Percentage_Equals p q = p.equals q := by
+  unfold NumSrc.Percentage_Equals Pct.equals
+  rw [src_Equals]
+
+theorem src_Percentage_Compare (p q : Pct) : NumSrc.Percentage_Compare p q = p.compare q := by
+  unfold NumSrc.Percentage_Compare Pct.compare
+  rw [src_Compare]
+
+theorem src_Percentage_IsZero (p : Pct) : NumSrc.Percentage_IsZero p = decide (p.amount.value = 0) := rfl
+theorem src_Percentage_IsPositive (p : Pct) : NumSrc.Percentage_IsPositive p = decide (0 < p.amount.value) := rfl
+theorem src_Percentage_IsNegative (p : Pct) : NumSrc.Percentage_IsNegative p = decide (p.amount.value < 0) := rfl
+theorem src_Percentage_Negate (p : Pct) : NumSrc.Percentage_Negate p = p.negate := rfl
+theorem src_Percentage_Invert (p : Pct) : NumSrc.Percentage_Invert p = p.negate := rfl
+
+/-- operator numbers outside 0..3 (negative ones included) take the `default:` branch -/
+theorem src_thresholdCompare (r : NumSrc.ThresholdRule) (v : Amount) :
+    NumSrc.ThresholdRule_compare r v =
+      thresholdCompare (if 0 ≤ r.operator ∧ r.operator ≤ 3 then r.operator.toNat else 4) r.threshold v := by
+  unfold NumSrc.ThresholdRule_compare thresholdCompare
+  simp only [src_Compare]
+  by_cases h0 : r.operator = 0
+  · simp [h0, Id.run, id_pure, beq_eq_decide]
+  by_cases h1 : r.operator = 1
+  · simp [h1, Id.run, id_pure, beq_eq_decide]
+  by_cases h2 : r.operator = 2
+  · simp [h2, Id.run, id_pure, beq_eq_decide]
+  by_cases h3 : r.operator = 3
+  · simp [h3, Id.run, id_pure, beq_eq_decide]
+  have : ¬ (0 ≤ r.operator ∧ r.operator ≤ 3) := by omega
+  simp [h0, h1, h2, h3, this, Id.run, id_pure, beq_eq_decide]
+
+theorem src_AmountZero : NumSrc.AmountZero = ⟨0, 0⟩ := rfl
+theorem src_PercentageZero : NumSrc.PercentageZero = ⟨⟨0, 0⟩⟩ := rfl
+
+
+/-- the subtraction `a.exp - 2` in `Percentage.Amount` never truncates: `RescaleUp(2)` came first -/
+theorem pct_amount_subtraction_guarded (p : Pct) : 2 ≤ (NumSrc.Amount_RescaleUp p.amount 2).exp := by
+  rw [src_RescaleUp]
+  unfold Amount.rescaleUp Amount.rescale
+  by_cases h : 2 > p.amount.exp
+  · have h1 : ¬ p.amount.exp > 2 := by omega
+    have h2 : p.amount.exp < 2 := by omega
+    simp [h, h1]
+  · simp only [h, if_false]; omega
+
+/-! ### the specification theorems, read off the regenerated code -/
+
+theorem spec_of_the_source_Multiply (a b : Amount) (hm : small (a.value * b.value)) (he : b.exp ≤ 22) :
+    (NumSrc.Amount_Multiply a b).exp = a.exp ∧
+    (NumSrc.Amount_Multiply a b).value = roundTo a.exp (a.toRat * b.toRat) := by
+  rw [src_Multiply]; exact multiply_spec a b hm he
+
+theorem spec_of_the_source_Divide (a b : Amount) (hb : b.value ≠ 0) (hn : small (a.value * pow10 b.exp))
+    (hd : b.value.natAbs < 2 ^ 53) :
+    (NumSrc.Amount_Divide a b).exp = a.exp ∧
+    (NumSrc.Amount_Divide a b).value = roundTo a.exp (a.toRat / b.toRat) := by
+  rw [src_Divide]; exact divide_spec a b hb hn hd
+
+theorem spec_of_the_source_Rescale_down (a : Amount) (e : ℕ) (h : e < a.exp) (hv : small a.value)
+    (he : a.exp - e ≤ 22) :
+    (NumSrc.Amount_Rescale a e).exp = e ∧ (NumSrc.Amount_Rescale a e).value = roundTo e a.toRat := by
+  rw [src_Rescale]; exact rescale_down_spec a e h hv he
+
+theorem spec_of_the_source_Rescale_up (a : Amount) (e : ℕ) (h : a.exp ≤ e) :
+    (NumSrc.Amount_Rescale a e).exp = e ∧ (NumSrc.Amount_Rescale a e).toRat = a.toRat := by
+  rw [src_Rescale]; exact rescale_up_lossless a e h
+
+theorem spec_of_the_source_Add (a b : Amount) (h : b.exp ≤ a.exp) :
+    (NumSrc.Amount_Add a b).exp = a.exp ∧ (NumSrc.Amount_Add a b).toRat = a.toRat + b.toRat := by
+  rw [src_Add]; exact add_lossless a b h
+
+theorem spec_of_the_source_Subtract (a b : Amount) (h : b.exp ≤ a.exp) :
+    (NumSrc.Amount_Subtract a b).exp = a.exp ∧ (NumSrc.Amount_Subtract a b).toRat = a.toRat - b.toRat := by
+  rw [src_Subtract]; exact sub_lossless a b h
+
+theorem spec_of_the_source_Compare (a b : Amount) :
+    NumSrc.Amount_Compare a b = Spec.cmp a.toRat b.toRat := by
+  rw [src_Compare]; exact compare_spec a b
+
+theorem spec_of_the_source_Equals (a b : Amount) :
+    NumSrc.Amount_Equals a b = true ↔ a.toRat = b.toRat := by
+  rw [src_Equals]; exact equals_spec a b
+
+theorem spec_of_the_source_Split (a : Amount) (x : ℤ) (hx : 1 ≤ x) (hv : small a.value) (hx53 : x.natAbs < 2 ^ 53)
+    (hp : small ((NumSrc.Amount_Divide a ⟨x, 0⟩).value * (x - 1))) :
+    (x - 1 : ℚ) * (NumSrc.Amount_Split a x).1.toRat + (NumSrc.Amount_Split a x).2.toRat = a.toRat := by
+  rw [src_Divide] at hp
+  rw [src_Split]; exact split_sum a x hx hv hx53 hp
+
+theorem spec_of_the_source_Of (p : Pct) (a : Amount) (hm : small (a.value * p.amount.value)) (he : p.amount.exp ≤ 22) :
+    (NumSrc.Percentage_Of p a).exp = a.exp ∧
+    (NumSrc.Percentage_Of p a).value = roundTo a.exp (a.toRat * p.amount.toRat) := by
+  rw [src_Of]; exact pct_of_spec p a hm he
+
+theorem spec_of_the_source_From (p : Pct) (a : Amount) (hf : (NumSrc.Percentage_Factor p).value ≠ 0)
+    (hn : small (a.value * pow10 p.amount.exp)) (hd : (NumSrc.Percentage_Factor p).value.natAbs < 2 ^ 53) :
+    (NumSrc.Percentage_From p a).exp = a.exp ∧
+    (NumSrc.Percentage_From p a).value = a.value - roundTo a.exp (a.toRat / (1 + p.amount.toRat)) := by
+  rw [src_Factor] at hf hd
+  rw [src_From]; exact pct_from_spec p a hf hn hd
+
+theorem spec_of_the_source_Remove (a : Amount) (p : Pct) (hf : (NumSrc.Percentage_Factor p).value ≠ 0)
+    (hn : small (a.value * pow10 p.amount.exp)) (hd : (NumSrc.Percentage_Factor p).value.natAbs < 2 ^ 53) :
+    (NumSrc.Amount_Remove a p).exp = a.exp ∧
+    (NumSrc.Amount_Remove a p).value = roundTo a.exp (a.toRat / (1 + p.amount.toRat)) := by
+  rw [src_Factor] at hf hd
+  rw [src_Remove]; exact remove_spec a p hf hn hd
+
+theorem spec_of_the_source_threshold (r : NumSrc.ThresholdRule) (v : Amount) :
+    NumSrc.ThresholdRule_compare r v = true ↔
+      (if r.operator = 0 then v.toRat > r.threshold.toRat
+       else if r.operator = 1 then v.toRat ≥ r.threshold.toRat
+       else if r.operator = 2 then v.toRat < r.threshold.toRat
+       else if r.operator = 3 then v.toRat ≤ r.threshold.toRat
+       else v.toRat ≠ r.threshold.toRat) := by
+  rw [src_thresholdCompare, threshold_spec]
+  by_cases h0 : r.operator = 0
+  · simp [h0]
+  by_cases h1 : r.operator = 1
+  · simp [h1]
+  by_cases h2 : r.operator = 2
+  · simp [h2]
+  by_cases h3 : r.operator = 3
+  · simp [h3]
+  have : ¬ (0 ≤ r.operator ∧ r.operator ≤ 3) := by omega
+  simp [h0, h1, h2, h3, this]
+
+/-! non-vacuity of the hypotheses above, on the regenerated definitions themselves -/
+example : small ((-25 : ℤ) * 5) ∧ (5 : ℕ) ≤ 22 ∧ NumSrc.Amount_Multiply ⟨-25, 1⟩ ⟨5, 1⟩ = ⟨-13, 1⟩ := by
+  refine ⟨by decide, by decide, ?_⟩
+  rw [src_Multiply, multiply_exact _ _ (by decide) (by decide)]; decide
+example : (3 : ℤ) ≠ 0 ∧ small ((1000 : ℤ) * pow10 0) ∧ (3 : ℤ).natAbs < 2 ^ 53 := by decide
+example : (1 : ℕ) < 3 ∧ small (12345 : ℤ) ∧ 3 - 1 ≤ 22 := by decide
+example : (1 : ℤ) ≤ 3 ∧ small (1000 : ℤ) ∧ (3 : ℤ).natAbs < 2 ^ 53 := by decide
+example : (NumSrc.Percentage_Factor ⟨⟨21, 2⟩⟩).value ≠ 0 := by rw [src_Factor]; decide
+example : NumSrc.intPow 10 3 = 1000 := by rw [src_intPow]; decide
+
+end Src
 
 end GoblVerif.Props.C05
